@@ -98,6 +98,12 @@ class IdentityEliminationPass(ir.passes.InPlacePass):
             input_value.is_graph_input() or input_value.is_initializer()
         ):
             return False
+        if output_is_graph_output:
+            producer = input_value.producer()
+            if producer is None or producer.graph is not graph_like:
+                # The input comes from an enclosing graph: a (sub)graph must not
+                # return an outer-scope value directly.
+                return False
 
         # Copy over shape/type if the output has more complete information
         input_value.shape = _merge_shapes(input_value.shape, output_value.shape)
